@@ -372,12 +372,17 @@ func init() {
 // at which either encoder switches form or grows its buffer (0..130 bytes / elements; 1..127 for the
 // items whose length is limited to 127), each followed by a small integer so that a length that is off by
 // one shows as a changed neighbour. Both directions, every shard takes its share.
-func c03LengthSweep(ctx *Ctx, report func(c interface{}, err error)) {
-	type family struct {
-		name     string
-		min, max int
-		item     func(n int) []ev.Event
-	}
+// sweepFamily is one length-carrying or value-carrying item swept over a range (n = length, or index into a
+// list of boundary values).
+type sweepFamily struct {
+	name     string
+	min, max int
+	item     func(n int) []ev.Event
+}
+
+// sweepFamilies lists the boundary sweeps shared by C01, C02 and C03.
+func sweepFamilies() []sweepFamily {
+	type family = sweepFamily
 	rep := func(n int, s string) []byte { return []byte(strings.Repeat(s, n)) }
 	name := func(n int) string { return "A" + strings.Repeat("b", n-1) }
 	tm := func(t compact_time.Time) []ev.Event { return []ev.Event{{K: ev.Time, T: t}} }
@@ -464,7 +469,8 @@ func c03LengthSweep(ctx *Ctx, report func(c interface{}, err error)) {
 			return []ev.Event{{K: ev.BigDFloat, BDF: d}}
 		}})
 	}
-	dfloatExps := []int32{-2147483648, -2147483647, -1000000, -100001, -99999, -400, 400, 99999, 100001, 1000000, 2147483646, 2147483647}
+	// (-2147483648 is the marker of the special values in a DFloat, not an exponent)
+	dfloatExps := []int32{-2147483647, -1000000, -100001, -99999, -400, 400, 99999, 100001, 1000000, 2147483646, 2147483647}
 	fams = append(fams, family{"decimal-float-exponent", 0, len(dfloatExps) - 1, func(n int) []ev.Event {
 		return []ev.Event{{K: ev.DFloat, DF: compact_float.DFloatValue(dfloatExps[n], 1234567890123456789)}}
 	}})
@@ -475,7 +481,7 @@ func c03LengthSweep(ctx *Ctx, report func(c interface{}, err error)) {
 	fams = append(fams, family{"custom-text-type-code", 0, len(customCodes) - 1, func(n int) []ev.Event {
 		return []ev.Event{{K: ev.CustomText, U: customCodes[n], S: "abc"}}
 	}})
-	bigFloatExps := []int{-20000, -1100, -1075, -1074, -1023, -1022, 0, 1023, 1024, 1100, 20000}
+	bigFloatExps := []int{-19000, -1100, -1075, -1074, -1023, -1022, 0, 1023, 1024, 1100, 19000}
 	fams = append(fams, family{"big-float-binary-exponent", 0, len(bigFloatExps) - 1, func(n int) []ev.Event {
 		f := new(big.Float).SetPrec(70).SetInt64(0x1d3)
 		f.SetMantExp(f, bigFloatExps[n])
@@ -522,6 +528,13 @@ func c03LengthSweep(ctx *Ctx, report func(c interface{}, err error)) {
 	fams = append(fams, family{"time/utc-offset", 0, len(offsets) - 1, func(n int) []ev.Event {
 		return tm(compact_time.NewTime(1, 2, 3, 0, compact_time.TZWithMiutesOffsetFromUTC(offsets[n])))
 	}})
+	return fams
+}
+
+// c03LengthSweep is the deterministic part: see sweepFamilies. Both directions, every shard takes its share.
+func c03LengthSweep(ctx *Ctx, report func(c interface{}, err error)) {
+	fams := sweepFamilies()
+	rep := func(n int, s string) []byte { return []byte(strings.Repeat(s, n)) }
 	cfg := newCfg()
 	var evals, nontrivial int64
 	k := 0
@@ -567,4 +580,50 @@ func c03LengthSweep(ctx *Ctx, report func(c interface{}, err error)) {
 	}
 	ctx.Stats.Bulk(evals, nontrivial)
 	ctx.Stats.Note(fmt.Sprintf("length sweep: %d families x every length in their range x 3 positions x 2 directions (shard %d/%d)", len(fams), ctx.Shard, ctx.Shards))
+}
+
+// sweepEventCases runs check over every item of every sweep family (the shard's share), each placed in a
+// list after 0, 1 or 3 strings and followed by a small integer. Used by C01 and C02: there the decoded events
+// are compared with the ORIGINAL events, which the C03 sweep (decoder against decoder) cannot do.
+func sweepEventCases(ctx *Ctx, report func(c interface{}, err error), check func(ci interface{}, ctx *Ctx) error, skip ...string) {
+	var fams []sweepFamily
+	for _, f := range sweepFamilies() {
+		if !containsStr(skip, f.name) {
+			fams = append(fams, f)
+		}
+	}
+	rep := func(n int, s string) []byte { return []byte(strings.Repeat(s, n)) }
+	var evals int64
+	k := 0
+	for fi := range fams {
+		f := &fams[fi]
+		for n := f.min; n <= f.max; n++ {
+			k++
+			if k%ctx.Shards != ctx.Shard {
+				continue
+			}
+			for _, before := range []int{0, 1, 3} {
+				evs := []ev.Event{{K: ev.BD}, {K: ev.Version}, {K: ev.List}}
+				for b := 0; b < before; b++ {
+					evs = append(evs, ev.Event{K: ev.Array, AT: events.ArrayTypeString, U: 20, Bs: rep(20, "p")})
+				}
+				evs = append(evs, f.item(n)...)
+				evs = append(evs, ev.Event{K: ev.Int, I: 0x41}, ev.Event{K: ev.End}, ev.Event{K: ev.ED})
+				c := &EvCase{Events: evs}
+				evals++
+				if err := check(c, ctx); err != nil {
+					if strings.Contains(err.Error(), "the validator rejects this stream") {
+						continue // the item is outside what the validator accepts (strict-generator mode only)
+					}
+					report(c, fmt.Errorf("sweep %s n=%d after %d items: %v", f.name, n, before, err))
+					return
+				}
+				if ctx.Hung || ctx.Abandoned {
+					return
+				}
+			}
+		}
+	}
+	ctx.Stats.Bulk(evals, evals)
+	ctx.Stats.Note(fmt.Sprintf("boundary sweep: %d families x every length / value in their range x 3 positions (shard %d/%d)", len(fams), ctx.Shard, ctx.Shards))
 }
